@@ -16,8 +16,8 @@
      * refutation of the property as stated, in the current tree: Content::Object panics the writer (F13);
      * for the record, about the `_pinned` definitions (the code before those commits): the Name of an instance of an
        unknown class was lost with the default options; the legacy value won over the explicit one.
-   NOT proven: the forest-level theorem for arbitrary DOMs (xml_decode (channel (xml_encode d)) ~ d); it is covered by
-   the xmlfile correspondence plus the implementation-side round-trip oracle only.
+   The forest-level theorems for arbitrary DOMs (xml_decode (channel (xml_encode d)) ~ d) are at the end of this file
+   (Proofs/XmlRoundTrip.v).
    Each theorem is the full statement followed by `exact <lemma>`. *)
 From Coq Require Import List NArith ZArith Bool String.
 From RbxVerif Require Import Base Bytes Value Db CodecDom XmlEvents XmlValues XmlFile XmlInt XmlBase64 XmlText XmlCompound XmlFileFacts.
@@ -533,4 +533,269 @@ Theorem C02_color_sequence_empty_not_read_back :
          [RStart (B "ColorSequence") [(B "name", name)]; REnd (B "ColorSequence")] = 
        Err DE_CONTENT.
 Proof. exact color_sequence_empty_not_read_back. Qed.
+
+(* ==== THE WHOLE-FILE THEOREMS (Proofs/XmlRoundTrip.v): xml_decode (channel (xml_encode d roots)) for arbitrary DOMs.
+   forest_rel: one decoded instance per written instance in document order, labelled 1,2,3.., same class, same name (any byte string),
+   parent = label of the parent (0 for the roots), root order and child order preserved.  same_forest adds, per instance and key:
+   VRef r -> VRef (label of r) (0 for the null Ref and for a Ref to an unwritten instance), VSharedString c -> VSharedString c (through the
+   dictionary), any other value through the per-type law; keys absent in the source are absent after decoding.
+   Proved in full for the plain pairing (no reflection, or Write/ReadUnknown on classes the database does not know); the forest for ANY
+   behaviours and database under an explicit law of the reader's per-property step (generic) or computed from the database (reflection).
+   Closed corollary for 26 value types under the two float-text laws.  Each hypothesis is shown necessary by a computed counter-example:
+   a property literally called `Name` overrides the instance name (Instance documents Name as not being a property), overlapping roots,
+   duplicate keys / referents, a database that makes `Name` an alias, a value the reader rejects (one-keypoint sequence), SharedStrings whose
+   hashes agree on the 16 bytes written. *)
+From RbxVerif Require Import XmlStructure XmlRoundTrip.
+
+Theorem C02_xml_roundtrip_forest :
+  forall (e : xenv) (ebeh : ebehavior) (dbeh : dbehavior) (d : cdom) (roots : list N)
+         (evs : list wevent) (revs : list revent),
+       input_ok d roots ->
+       plain_mode e ebeh dbeh d roots ->
+       hash_bytes e ->
+       readable_dom e d roots ->
+       xml_encode e ebeh d roots = Ok evs ->
+       channel evs = Ok revs -> exists d' : cdom, xml_decode e dbeh revs = Ok d' /\ forest_rel d roots d'.
+Proof. exact xml_roundtrip_forest. Qed.
+
+Theorem C02_xml_roundtrip_forest_generic :
+  forall (e : xenv) (ebeh : ebehavior) (dbeh : dbehavior) (D : dout) (d : cdom) 
+         (roots : list N) (evs : list wevent) (revs : list revent),
+       input_ok0 d roots ->
+       hash_bytes e ->
+       readable e ebeh d roots ->
+       dec_law e ebeh dbeh D d roots ->
+       xml_encode e ebeh d roots = Ok evs ->
+       channel evs = Ok revs -> exists d' : cdom, xml_decode e dbeh revs = Ok d' /\ forest_rel d roots d'.
+Proof. exact xml_roundtrip_forest_generic. Qed.
+
+Theorem C02_xml_roundtrip_forest_reflection :
+  forall (e : xenv) (ebeh : ebehavior) (dbeh : dbehavior) (d : cdom) (roots : list N)
+         (evs : list wevent) (revs : list revent),
+       input_ok0 d roots ->
+       hash_bytes e ->
+       readable e ebeh d roots ->
+       refl_law e ebeh dbeh d roots ->
+       xml_encode e ebeh d roots = Ok evs ->
+       channel evs = Ok revs -> exists d' : cdom, xml_decode e dbeh revs = Ok d' /\ forest_rel d roots d'.
+Proof. exact xml_roundtrip_forest_reflection. Qed.
+
+Theorem C02_xml_roundtrip :
+  forall (e : xenv) (ebeh : ebehavior) (dbeh : dbehavior) (d : cdom) (roots : list N)
+         (evs : list wevent) (revs : list revent),
+       input_ok d roots ->
+       plain_mode e ebeh dbeh d roots ->
+       hash_ok e ->
+       readable_dom e d roots ->
+       xml_encode e ebeh d roots = Ok evs ->
+       channel evs = Ok revs -> exists d' : cdom, xml_decode e dbeh revs = Ok d' /\ same_forest e d roots d'.
+Proof. exact xml_roundtrip. Qed.
+
+Theorem C02_xml_roundtrip_values :
+  forall (e : xenv) (ebeh : ebehavior) (dbeh : dbehavior) (d : cdom) (roots : list N)
+         (norm : value -> value) (evs : list wevent) (revs : list revent),
+       input_ok d roots ->
+       plain_mode e ebeh dbeh d roots ->
+       hash_ok e ->
+       (forall (id : N) (i : inst) (k : bytes) (v : value),
+        In id (written d roots) ->
+        find_inst d id = Some i -> In (k, v) (i_props i) -> nonspecial v -> vlaw (xe_o e) v (norm v)) ->
+       xml_encode e ebeh d roots = Ok evs ->
+       channel evs = Ok revs ->
+       exists d' : cdom,
+         xml_decode e dbeh revs = Ok d' /\
+         same_forest e d roots d' /\ Forall2 (values_back d (written d roots) norm) (written d roots) d'.
+Proof. exact xml_roundtrip_values. Qed.
+
+Theorem C02_xml_roundtrip_simple_types :
+  forall (e : xenv) (ebeh : ebehavior) (dbeh : dbehavior) (d : cdom) (roots : list N)
+         (evs : list wevent) (revs : list revent),
+       input_ok d roots ->
+       plain_mode e ebeh dbeh d roots ->
+       hash_ok e ->
+       float_laws (xe_o e) ->
+       simple_dom d roots ->
+       xml_encode e ebeh d roots = Ok evs ->
+       channel evs = Ok revs ->
+       exists d' : cdom,
+         xml_decode e dbeh revs = Ok d' /\
+         same_forest e d roots d' /\
+         Forall2 (values_back d (written d roots) norm_simple) (written d roots) d'.
+Proof. exact xml_roundtrip_simple_types. Qed.
+
+Theorem C02_xml_roundtrip_refs :
+  forall (e : xenv) (ebeh : ebehavior) (dbeh : dbehavior) (d : cdom) (roots : list N)
+         (evs : list wevent) (revs : list revent),
+       input_ok d roots ->
+       plain_mode e ebeh dbeh d roots ->
+       hash_ok e ->
+       readable_dom e d roots ->
+       xml_encode e ebeh d roots = Ok evs ->
+       channel evs = Ok revs ->
+       exists d' : cdom,
+         xml_decode e dbeh revs = Ok d' /\
+         Forall2 (refs_back d (written d roots)) (written d roots) d' /\
+         label (written d roots) 0 = 0 /\
+         (forall r : N, ~ In r (written d roots) -> label (written d roots) r = 0) /\
+         (forall r : N,
+          In r (written d roots) ->
+          1 <= label (written d roots) r <= N.of_nat (Datatypes.length (written d roots)) /\
+          nth_error (written d roots) (N.to_nat (label (written d roots) r) - 1) = Some r).
+Proof. exact xml_roundtrip_refs. Qed.
+
+Theorem C02_xml_roundtrip_example :
+  written d_rt [1; 5] = [1; 2; 3; 5] /\
+       input_ok d_rt [1; 5] /\
+       plain_mode e_rt EWriteUnknown DReadUnknown d_rt [1; 5] /\
+       hash_ok e_rt /\
+       float_laws (xe_o e_rt) /\
+       simple_dom d_rt [1; 5] /\
+       (exists (evs : list wevent) (revs : list revent),
+          xml_encode e_rt EWriteUnknown d_rt [1; 5] = Ok evs /\
+          channel evs = Ok revs /\
+          xml_decode e_rt DReadUnknown revs = Ok d_rt_back /\
+          same_forest e_rt d_rt [1; 5] d_rt_back /\
+          forest_rel d_rt [1; 5] d_rt_back /\
+          Forall2 (values_back d_rt [1; 2; 3; 5] norm_simple) [1; 2; 3; 5] d_rt_back /\
+          List.map (label [1; 2; 3; 5]) [1; 2; 3; 5; 0; 4; 99] = [1; 2; 3; 4; 0; 0; 0]).
+Proof. exact xml_roundtrip_example. Qed.
+
+Theorem C02_xml_roundtrip_reflection_example :
+  input_ok0 d_refl [1] /\
+       hash_bytes e_refl /\
+       readable e_refl EIgnoreUnknown d_refl [1] /\
+       refl_law e_refl EIgnoreUnknown DIgnoreUnknown d_refl [1] /\
+       thru e_refl EIgnoreUnknown DIgnoreUnknown d_refl [1] =
+       Ok
+         [{|
+            i_ref := 1;
+            i_parent := 0;
+            i_class := B "Part";
+            i_name := B "p";
+            i_props :=
+              [(B "Transparency", VFloat32 XmlCompound2.F32_HALF);
+               (B "Size", VVector3 {| vx := F32_ONE; vy := F32_ONE; vz := F32_ZERO |})]
+          |};
+          {|
+            i_ref := 2;
+            i_parent := 1;
+            i_class := B "Part";
+            i_name := B " kid ";
+            i_props :=
+              [(B "Size", VVector3 {| vx := XmlCompound2.F32_HALF; vy := F32_ONE; vz := F32_ZERO |})]
+          |}; {| i_ref := 3; i_parent := 1; i_class := B "Gizmo"; i_name := B "g"; i_props := [] |}].
+Proof. exact xml_roundtrip_reflection_example. Qed.
+
+Theorem C02_name_property_refuted :
+  thru XmlFileFacts.e0 ENoReflection DNoReflection
+         [{|
+            i_ref := 1;
+            i_parent := 0;
+            i_class := B "Folder";
+            i_name := B "real";
+            i_props := [(B "Name", VString (B "fake"))]
+          |}] [1] =
+       Ok [{| i_ref := 1; i_parent := 0; i_class := B "Folder"; i_name := B "fake"; i_props := [] |}].
+Proof. exact name_property_refuted. Qed.
+
+Theorem C02_name_property_not_string_refuted :
+  thru XmlFileFacts.e0 ENoReflection DNoReflection
+         [{|
+            i_ref := 1;
+            i_parent := 0;
+            i_class := B "Folder";
+            i_name := B "real";
+            i_props := [(B "Name", VInt32 1)]
+          |}] [1] = Err DE_NAME.
+Proof. exact name_property_not_string_refuted. Qed.
+
+Theorem C02_overlapping_roots_refuted :
+  thru XmlFileFacts.e0 ENoReflection DNoReflection
+         [{|
+            i_ref := 1;
+            i_parent := 0;
+            i_class := B "Folder";
+            i_name := B "a";
+            i_props := [(B "Self", VRef 1)]
+          |}] [1; 1] =
+       Ok
+         [{|
+            i_ref := 1;
+            i_parent := 0;
+            i_class := B "Folder";
+            i_name := B "a";
+            i_props := [(B "Self", VRef 2)]
+          |};
+          {|
+            i_ref := 2;
+            i_parent := 0;
+            i_class := B "Folder";
+            i_name := B "a";
+            i_props := [(B "Self", VRef 2)]
+          |}] /\
+       label
+         (written
+            [{|
+               i_ref := 1;
+               i_parent := 0;
+               i_class := B "Folder";
+               i_name := B "a";
+               i_props := [(B "Self", VRef 1)]
+             |}] [1; 1]) 1 = 1.
+Proof. exact overlapping_roots_refuted. Qed.
+
+Theorem C02_duplicate_key_refuted :
+  thru XmlFileFacts.e0 ENoReflection DNoReflection
+         [{|
+            i_ref := 1;
+            i_parent := 0;
+            i_class := B "Folder";
+            i_name := B "a";
+            i_props := [(B "K", VInt32 1); (B "K", VInt32 2)]
+          |}] [1] =
+       Ok
+         [{|
+            i_ref := 1; i_parent := 0; i_class := B "Folder"; i_name := B "a"; i_props := [(B "K", VInt32 2)]
+          |}] /\ bfind (B "K") [(B "K", VInt32 1); (B "K", VInt32 2)] = Some (VInt32 1).
+Proof. exact duplicate_key_refuted. Qed.
+
+Theorem C02_name_alias_refuted :
+  thru e_alias EWriteUnknown DReadUnknown
+         [{| i_ref := 1; i_parent := 0; i_class := B "Folder"; i_name := B "real"; i_props := [] |}] [1] =
+       Ok
+         [{|
+            i_ref := 1;
+            i_parent := 0;
+            i_class := B "Folder";
+            i_name := B "Folder";
+            i_props := [(B "Title", VString (B "real"))]
+          |}].
+Proof. exact name_alias_refuted. Qed.
+
+Theorem C02_unreadable_value_refuted :
+  thru e_o1 ENoReflection DNoReflection
+         [{|
+            i_ref := 1;
+            i_parent := 0;
+            i_class := B "Folder";
+            i_name := B "f";
+            i_props := [(B "Seq", VNumberSequence [(0, F32_ONE, 0)])]
+          |}] [1] = Err DE_CONTENT.
+Proof. exact unreadable_value_refuted. Qed.
+
+Theorem C02_hash_prefix_collision_refuted :
+  firstn 16 h_a = firstn 16 h_b /\
+       B "aaa" <> B "bbb" /\
+       xe_hash e_amb (B "aaa") = Some h_a /\
+       xe_hash e_amb (B "bbb") = Some h_b /\
+       thru e_amb ENoReflection DNoReflection d_amb [1] =
+       Ok
+         [{|
+            i_ref := 1;
+            i_parent := 0;
+            i_class := B "Folder";
+            i_name := B "f";
+            i_props := [(B "S2", VSharedString (B "bbb")); (B "S1", VSharedString (B "bbb"))]
+          |}].
+Proof. exact hash_prefix_collision_refuted. Qed.
 
